@@ -16,11 +16,20 @@
 //   stepacc <d>                 copy of d is stepped once; prints (qvel' - qvel) / timestep  (d itself is untouched)
 //   efc <d>                     efc_force of all constraint rows
 //   fwdinv <d>                  mj_compareFwdInv -> "2 fwdinv0 fwdinv1"
+//   eqrows <d> J|pos            first THREE rows (translation residual) of every equality constraint, in equality order:
+//                               J: rows of efc_J densified to nv columns (dense or sparse storage);  pos: efc_pos
+//   jacdif <d> <b1> <b2> <sparse> x1 y1 z1 x2 y2 z2
+//                               white box: mj_jacDifPair(b1, b2, p1, p2) -> jacdifp (3 x nv) then jacdifr (3 x nv), scattered
+//                               to dense through the returned chain; entries the function did not write come out as nan
 #include "mjdrv_common.h"
 extern "C" {
 int mj_bodyChain(const mjModel* m, int body, int* chain);
 void mj_jacSparse(const mjModel* m, const mjData* d, mjtNum* jacp, mjtNum* jacr, const mjtNum* point, int body,
                   int NV, const int* chain, int flg_skipcommon);
+int mj_isSparse(const mjModel* m);
+int mj_jacDifPair(const mjModel* m, const mjData* d, int* chain, int b1, int b2, const mjtNum pos1[3], const mjtNum pos2[3],
+                  mjtNum* jac1p, mjtNum* jac2p, mjtNum* jacdifp, mjtNum* jac1r, mjtNum* jac2r, mjtNum* jacdifr,
+                  int issparse, int flg_skipcommon);
 }
 
 static void pv(const std::vector<mjtNum>& v) {
@@ -39,7 +48,7 @@ static bool extra(const std::vector<std::string>& t, const std::vector<std::stri
   auto I = [&](size_t k) { if (k >= t.size()) mk_die("missing argument for " + op); return atoi(t[k].c_str()); };
   auto F = [&](size_t k) { if (k >= t.size()) mk_die("missing argument for " + op); return drv_num(t[k]); };
   static const char* mine[] = {"quatmat", "jac", "jacpt", "jacsp", "jacdot", "objvel", "fullm", "mulm", "solvem", "reconld",
-                               "rne", "intpos", "diffpos", "stepacc", "efc", "fwdinv", nullptr};
+                               "rne", "intpos", "diffpos", "stepacc", "efc", "fwdinv", "eqrows", "jacdif", nullptr};
   bool is_mine = false;
   for (const char** p = mine; *p; p++) if (op == *p) is_mine = true;
   if (!is_mine) return false;
@@ -142,6 +151,56 @@ static bool extra(const std::vector<std::string>& t, const std::vector<std::stri
   if (op == "efc") {
     std::vector<mjtNum> f(d->efc_force, d->efc_force + d->nefc);
     HX_END; pv(f); return true;
+  }
+  if (op == "eqrows") {
+    // an equality whose whole Jacobian block is exactly zero may be dropped by the engine (dense storage): its Jacobian rows
+    // are reported as zeros; residuals are reported only for the equalities listed in the optional third argument
+    bool wantJ = t.at(2) == "J";
+    int sparse = mj_isSparse(m);
+    std::vector<mjtNum> out;
+    std::vector<mjtNum> sel = t.size() > 3 && t[3] != "-" ? drv_nums(t[3]) : std::vector<mjtNum>();
+    for (int e = 0; e < m->neq; e++) {
+      int r0 = -1;
+      for (int r = 0; r < d->nefc; r++) if (d->efc_type[r] == mjCNSTR_EQUALITY && d->efc_id[r] == e) { r0 = r; break; }
+      if (!wantJ) {
+        bool want = false;
+        for (mjtNum x : sel) if ((int)x == e) want = true;
+        if (!want) continue;
+        if (r0 < 0) mk_die("equality without constraint rows");
+        for (int r = r0; r < r0 + 3; r++) out.push_back(d->efc_pos[r]);
+        continue;
+      }
+      for (int k = 0; k < 3; k++) {
+        std::vector<mjtNum> row(nv, 0);
+        int r = r0 + k;
+        if (r0 >= 0) {
+          if (sparse) {
+            for (int c = 0; c < d->efc_J_rownnz[r]; c++) row.at(d->efc_J_colind[d->efc_J_rowadr[r] + c]) += d->efc_J[d->efc_J_rowadr[r] + c];
+          } else {
+            for (int c = 0; c < nv; c++) row[c] = d->efc_J[(size_t)r * nv + c];
+          }
+        }
+        out.insert(out.end(), row.begin(), row.end());
+      }
+    }
+    HX_END; pv(out); return true;
+  }
+  if (op == "jacdif") {
+    int b1 = I(2), b2 = I(3), sparse = I(4);
+    mjtNum p1[3] = {F(5), F(6), F(7)}, p2[3] = {F(8), F(9), F(10)};
+    size_t cap = 6 * (size_t)nv + 32;
+    std::vector<mjtNum> j1p(cap, NAN), j2p(cap, NAN), jdp(cap, NAN), j1r(cap, NAN), j2r(cap, NAN), jdr(cap, NAN);
+    std::vector<int> chain(nv + 8, -1);
+    int NV = mj_jacDifPair(m, d, chain.data(), b1, b2, p1, p2, j1p.data(), j2p.data(), jdp.data(), j1r.data(), j2r.data(),
+                           jdr.data(), sparse, 0);
+    std::vector<mjtNum> out(6 * nv, 0);
+    for (int r = 0; r < 3; r++) for (int c = 0; c < NV; c++) {
+      int col = sparse ? chain[c] : c;
+      if (col < 0 || col >= nv) mk_die("jacdif: chain entry out of range");
+      out[r * nv + col] = jdp[r * NV + c];
+      out[3 * nv + r * nv + col] = jdr[r * NV + c];
+    }
+    HX_END; pv(out); return true;
   }
   if (op == "fwdinv") {
     mj_compareFwdInv(m, d);
